@@ -188,6 +188,17 @@ def check_sample(case, part):
             for i in range(pt_):
                 vi = s[f"v{i}"].to_value(u.km / u.s / u.day**i)
                 decl = decl + st.norm(0, sv[i]).logpdf(vi)
+        if gl and case.get("probe"):
+            # dependence probe: K must have been drawn with the scale of its OWN row's (P, e).  With sigma_K varying by a
+            # factor > 400 across the period range, a K drawn at another (P', e') gives |K| / sigma_K(P_row, e_row) far
+            # beyond any standard-normal value; for correct draws |z| > 8.5 has probability 2e-17 per row (numpy's normal
+            # sampler is trusted).  This is a tail bound at fixed seeds, not a statistical test.
+            z = np.abs(K / sigK)
+            if np.max(z) > 8.5:
+                j = int(np.argmax(z))
+                part.violation(c2, "a drawn K is not compatible with Normal(0, sigma_K(P, e)) of its own row: the linear parameters were not drawn "
+                               "jointly with the row's nonlinear parameters", expected="|K|/sigma_K <= 8.5", observed=(float(z[j]), float(P[j]), float(e[j])))
+                return
         diff = lp - decl
         part.record(c2, outcome=(round(float(np.ptp(diff)), 6),), nontrivial=True)
         if lp.shape != (case["size"],) or not np.all(np.isfinite(lp)):
@@ -233,6 +244,8 @@ def build(quick, seed):
                                 continue
                             samp.append(dict(kind="sample", P_lim=list(lim), sigma_K0=sK0, P0_days=P0d, sigma_v=[100.0, 0.5], poly_trend=pt_,
                                              generate_linear=gl, P_unit=Pu, size=16, seeds=[0, 1] if quick else [0, 1, 2, 3]))
+    samp.append(dict(kind="sample", P_lim=[0.1, 1e7], sigma_K0=30.0, P0_days=365.25, sigma_v=[100.0, 0.5], poly_trend=1, generate_linear=True,
+                     P_unit="day", size=64, seeds=[0, 1, 2, 3], probe=True))
     for custom in ("s_lognormal", "omega_vonmises", "both", "M0_uniform"):
         for gl in (False, True):
             samp.append(dict(kind="sample", P_lim=[1.0, 1000.0], sigma_K0=30.0, P0_days=365.25, sigma_v=[100.0, 0.5], poly_trend=1, generate_linear=gl,
@@ -248,7 +261,8 @@ def main():
         "straddling the cap) against closed forms; (b) draws: UniformLogRV.rng_fn on a scripted u-lattice {0,1/64,..,63/64,1-ulp} must be "
         "the inverse CDF; for native samplers the op and its parameter graph (scale rule with cap; Beta constants) are evaluated on the "
         "grid; (c) prior.sample(return_logprobs=True) over (P_min,P_max) x sigma_K0 x P0 x poly_trend x generate_linear x P unit x seeds: "
-        "ln_prior minus the declared log-densities of the drawn columns must be constant over the rows of a call. Non-trivial: all cases "
+        "ln_prior minus the declared log-densities of the drawn columns must be constant over the rows of a call; one tail-bound probe of "
+        "the joint draw (K vs its own row's sigma_K over a 8-decade period range). Non-trivial: all cases "
         "(for FixedCompanionMass: the cap is active on part of the grid).",
     )
     cases, samp = build(chk.quick, chk.seed)
